@@ -1,6 +1,6 @@
 (* C05 -- Protobuf encode/decode round trip and encoded_len agreement.
    Only statements, each closed by [exact] of a lemma proved in Proofs/, with Print Assumptions beneath. *)
-From PVPb Require Import Wire Codec Msg Proofs.VarintP Proofs.WireP Proofs.CastP Proofs.CodecP Proofs.MsgLenP Proofs.MsgRtP.
+From PVPb Require Import Wire Codec Msg Proofs.VarintP Proofs.WireP Proofs.CastP Proofs.CodecP Proofs.MsgLenP Proofs.MsgRtP GroupMsg Proofs.GroupP.
 Open Scope Z_scope.
 
 (* every u64, every decode path (fast path / unrolled slice path / byte-at-a-time slow path; which one
@@ -131,3 +131,56 @@ Theorem C05_msg_rt_negzero_refuted :
   msg_decode sc 0 (mkR (enc_msg true 1 sc 0 v) 0) = OOk v (mkR [] 1).
 Proof. exact msg_roundtrip_negzero_refuted. Qed.
 Print Assumptions C05_msg_rt_negzero_refuted.
+
+(* ---- the group codec (pilota::prost::encoding::group: encode / encoded_len / encode_repeated / encoded_len_repeated /
+   merge / merge_repeated).  pilota-build's protobuf front end cannot emit group fields, but the module is public runtime
+   API; the pb harness exercises it on every run through a hand-written Message impl (GroupHolder<M>: an optional, a
+   required and a repeated group field over every generated message type M), whose model is GroupMsg.v. *)
+
+(* what group::merge reads: the body as the generated encoder writes it, then the EndGroup key.  Every schema, every
+   message type as body, every typed value (the EMPTY body of an all-optional message included), every field number, any
+   trailing bytes.  Side conditions as for C05_msg_rt, the group itself costing one unit of the recursion budget. *)
+Theorem C05_group_merge_rt : forall edv sc d i v tag c r a, schema_ok sc = true -> wt_msg d sc i v = true -> lossless edv d sc i v ->
+  zlen (enc_msg edv d sc i v) < two64 -> tag_ok tag -> 2 * Z.of_nat d <= c -> 1 <= c <= recursion_limit ->
+  exists a', group_merge (merge_field depth_fuel sc i) tag StartGroup (default_msg depth_fuel sc i) c
+               (mkR (enc_msg edv d sc i v ++ encode_key tag EndGroup ++ r) a) = OOk v (mkR r a').
+Proof. exact group_merge_rt. Qed.
+Print Assumptions C05_group_merge_rt.
+
+(* the whole record group::encode writes -- StartGroup key, body, EndGroup key -- read as a merge_field arm reads it *)
+Theorem C05_group_rt : forall edv sc d i v tag c r a, schema_ok sc = true -> wt_msg d sc i v = true -> lossless edv d sc i v ->
+  zlen (enc_msg edv d sc i v) < two64 -> tag_ok tag -> 2 * Z.of_nat d <= c -> 1 <= c <= recursion_limit ->
+  exists a', (let+ (t, w) := decode_key in group_merge (merge_field depth_fuel sc i) t w (default_msg depth_fuel sc i) c)
+               (mkR (group_encode tag (enc_msg edv d sc i v) ++ r) a) = OOk v (mkR r a').
+Proof. exact group_record_rt. Qed.
+Print Assumptions C05_group_rt.
+
+(* group::encoded_len = 2 * key_len(tag) + body.encoded_len() is the number of bytes group::encode writes -- also for a
+   body of length 0: an empty group is two keys, not nothing --, and encoded_len_repeated is the number of bytes
+   encode_repeated writes *)
+Theorem C05_group_len : forall edv sc d i v tag, schema_ok sc = true -> wt_msg d sc i v = true ->
+  zlen (enc_msg edv d sc i v) < two64 -> tag_ok tag ->
+  group_encoded_len tag (len_msg edv d sc i v) = zlen (group_encode tag (enc_msg edv d sc i v)).
+Proof. exact group_len. Qed.
+Print Assumptions C05_group_len.
+
+Theorem C05_group_len_repeated : forall edv sc d i tag, schema_ok sc = true -> tag_ok tag -> forall vs,
+  Forall (fun v => wt_msg d sc i v = true /\ zlen (enc_msg edv d sc i v) < two64) vs ->
+  group_encoded_len_repeated tag (map (len_msg edv d sc i) vs) = zlen (group_encode_repeated tag (map (enc_msg edv d sc i) vs)).
+Proof. exact group_len_repeated. Qed.
+Print Assumptions C05_group_len_repeated.
+
+(* where presence and position are information: a message with an OPTIONAL group, a required group, a REPEATED group and a
+   scalar (the harness's GroupHolder<M>).  Encode then decode gives the value back: an optional group that is present
+   is present afterwards whatever its body (empty included), a repeated group keeps every element in order (empty
+   ones included), nothing is left of the input. *)
+Theorem C05_group_holder_rt : forall edv sc i d, schema_ok sc = true -> 2 * Z.of_nat d <= recursion_limit ->
+  forall (o : option val) r ms t a,
+    match o with Some v => body_ok edv sc i d v | None => True end -> body_ok edv sc i d r -> Forall (body_ok edv sc i d) ms ->
+    0 <= t < two32 ->
+    let x := VL NMsg [match o with Some v => VL NSome [v] | None => VL NNone [] end; r; VL NRep ms; VI t] in
+    exists a', gh_decode sc i (mkR (gh_enc sc i edv d x) a) = OOk x (mkR [] a').
+Proof. exact holder_roundtrip. Qed.
+Print Assumptions C05_group_holder_rt.
+(* non-vacuity: Proofs/GroupP.v group_empty_body (an empty body is the two keys, 4 bytes for field 1000; a repeated group
+   [full; empty; full] has the reported length; the holder with Some(empty) / [full; empty; full] round-trips). *)
